@@ -23,7 +23,7 @@ ASSUMPTIONS = [
     "a value supplied for a non-settable parameter (constant, reserved, matching request) may be rejected or ignored (C08)",
     "requested vs decoded uses the value equivalence of DESIGN 2.5 (True == 1, 3.0 == 3, bytes == bytearray are equal)",
 ]
-MUST_HIT = ["mut:valid-assignment", "mut:request-too-short", "mut:tablekey", "mut:tstruct", "minmax-sweep:A_UNICODE2STRING", "minmax-sweep:A_BYTEFIELD", "sweep:A_UINT32", "sweep:A_INT32:2C", "sweep:A_INT32:1C", "sweep:A_INT32:SM", "sweep:BCD", "outcome:rejected",
+MUST_HIT = ["mut:const-near-miss", "mut:valid-assignment", "mut:request-too-short", "mut:tablekey", "mut:tstruct", "minmax-sweep:A_UNICODE2STRING", "minmax-sweep:A_BYTEFIELD", "sweep:A_UINT32", "sweep:A_INT32:2C", "sweep:A_INT32:1C", "sweep:A_INT32:SM", "sweep:BCD", "outcome:rejected",
             "outcome:accepted", "mut:int-out-of-range", "mut:struct-missing-required", "mut:struct-unknown-param",
             "mut:mux", "mut:bytes", "mut:str", "mut:wrong-type", "mut:list"]
 
@@ -317,6 +317,9 @@ def mutated_case():
                     "mutation": {"path": [], "kind": "request", "label": label}}
         # prefer leaf sites over the (always present) top-level struct site
         idx = draw(st.integers(0, len(allsites) - 1))
+        consts = [i for i, (_, k_, inf) in enumerate(allsites) if k_ == "nonsettable" and inf["p"]["pk"] in ("const", "physconst")]
+        if consts and draw(st.integers(0, 9)) < 2:
+            idx = consts[draw(st.integers(0, len(consts) - 1))]
         path, kind, info = allsites[idx]
         if kind in ("nonsettable", "tablekey"):
             cur = None
@@ -350,12 +353,12 @@ def eval_case(case, res: core.ShardResult | None = None) -> list:
     cls = set()
     lab0 = label.split(":")[0]
     cls.add("mut:" + lab0)
-    for grp in ("mux", "bytes", "str", "list", "sfield", "struct", "tablekey", "tstruct", "request-too-short"):
+    for grp in ("mux", "bytes", "str", "list", "sfield", "struct", "tablekey", "tstruct", "request-too-short", "const-near-miss"):
         if lab0.startswith(grp):
             cls.add("mut:" + grp)
     if "wrong-type" in label or lab0 in ("linear", "float", "text"):
         cls.add("mut:wrong-type")
-    if mut.get("kind") == "nonsettable":
+    if mut.get("kind") == "nonsettable" and not label.startswith("const-near-miss"):
         # only the exception type is judged
         fs = judge(ld, case, case["values"], res, cls, label)
         fs = [f for f in fs if f.clause == "foreign-exception"]
